@@ -19,7 +19,7 @@ import LitexModel.Bits
        (the model itself selects point-to-point / shared / crossbar as `SoCBusHandler.do_finalize` does)
   open socglue <kind shared|crossbar> <reg 0|1> <timeout none|t> <dw> <addrWidth> <op> …
        (a whole build script against `SoCBusHandler`; opens only when every call and `do_finalize` are accepted)
-       op words:  M | MR:<origin>:<size> (add_master(region=…): remapper) | S:<origin|N>:<size>:<cached>:<linker> | R:<origin|N>:<size>:<cached>:<linker> | I:<origin>:<size>
+       op words:  M | MB (byte-addressed master) | SB:… (byte-addressed slave, fields as S) | MR:<origin>:<size> (add_master(region=…): remapper) | S:<origin|N>:<size>:<cached>:<linker> | R:<origin|N>:<size>:<cached>:<linker> | I:<origin>:<size>
   decoder words:  all | hi:<shift>:<val> | set:<a>,<b>,… | region:<origin>:<size>
   (`dw` = data width in bits, `addrWidth` = `bus.address_width`, the byte-address width.)
 -/
@@ -123,6 +123,8 @@ def parseOptNat (w : String) : Option (Option Nat) := if w == "N" then some none
 def parseGlueOp (w : String) : Option GlueOp :=
   match w.splitOn ":" with
   | ["M"] => some .master
+  | ["MB"] => some .masterB
+  | ["SB", o, sz, c, l] => do some (.slaveB (← parseOptNat o) (← sz.toNat?) (← parseBool c) (← parseBool l))
   | ["MR", o, sz] => do some (.masterR (← o.toNat?) (← sz.toNat?))
   | ["S", o, sz, c, l] => do some (.slave (← parseOptNat o) (← sz.toNat?) (← parseBool c) (← parseBool l))
   | ["R", o, sz, c, l] => do some (.region (← parseOptNat o) (← sz.toNat?) (← parseBool c) (← parseBool l))
